@@ -442,6 +442,26 @@ func c15Run(c c15Case) *vlib.Failure {
 		return vlib.Failf("Printf(%q, %v) into the early buffer allocates: %v allocs/run", format, c15Describe(c.Args), allocs)
 	}
 	earlyPrintBuffer.rIndex, earlyPrintBuffer.wIndex = 0, 0
+	// What Printf leaves in the early buffer is what the formatter wrote: all of it, or its
+	// last capacity-1 bytes (oldest dropped first, C16). The buffer starts empty at an offset
+	// derived from the case so that writes wrap at different places.
+	at := (len(format)*131 + len(out)*17 + len(c.Args)) & (ringBufferSize - 1)
+	earlyPrintBuffer.rIndex, earlyPrintBuffer.wIndex = at, at
+	outputSink = nil
+	Printf(format, boxed...)
+	c15Rec.n, c15Rec.writes = 0, 0
+	SetOutputSink(c15RecW)
+	outputSink = nil
+	early := string(c15Rec.buf[:c15Rec.n])
+	earlyPrintBuffer.rIndex, earlyPrintBuffer.wIndex = 0, 0
+	want := out
+	if len(want) > ringBufferSize-1 {
+		want = want[len(want)-(ringBufferSize-1):]
+	}
+	if early != want {
+		return vlib.Failf("Printf(%q, %v) with no sink installed (early buffer empty at offset %d): the buffer held %d bytes %q, the formatter writes %d bytes of which the last %d are %q",
+			format, c15Describe(c.Args), at, len(early), clip(early), len(out), len(want), clip(want))
+	}
 	return c15CallSites(c)
 }
 
@@ -643,9 +663,19 @@ func c15GenArg(t *rapid.T, wantVerb string) c15Arg {
 			if vlib.Thorough() {
 				n = 100000
 			}
+		case 2:
+			// around the size of the early print buffer and its double
+			n = rapid.SampledFrom([]int{2046, 2047, 2048, 2049, 3000, 4095, 4096, 4097, 5000}).Draw(t, "slen3")
 		}
 		if n <= 300 {
 			a.S = rapid.SliceOfN(rapid.Byte(), n, n).Draw(t, "s")
+		} else if n <= 5000 {
+			// position-dependent contents: a rotated or truncated copy differs
+			seed := rapid.Byte().Draw(t, "sseed")
+			a.S = make([]byte, n)
+			for i := range a.S {
+				a.S[i] = byte(i*7+i/251) ^ seed
+			}
 		} else {
 			a.S = bytes.Repeat([]byte{rapid.Byte().Draw(t, "sfill")}, n)
 		}
